@@ -145,9 +145,11 @@ package textwire
 //@   ensures result1 != nil ==> result0 == nil
 //@   ensures result1 == nil ==> result0 != nil && forallkey(result0, k, result0[k] != nil && WFNode(iface(result0[k])) && len(result0[k].Reserves) == 0)
 //@   modifies *
-//@   loop 0: invariant result != nil && fresh(result) && forallkey(result, k, result[k] != nil && WFNode(iface(result[k])) && len(result[k].Reserves) == 0)
+//@   loop 0: invariant fresh(names) && len(names) >= 0 && result != nil && fresh(result) && emptymap(result)
+//@   loop 0: deterministic-by-contract
+//@   loop 1: invariant result != nil && fresh(result) && forallkey(result, k, result[k] != nil && WFNode(iface(result[k])) && len(result[k].Reserves) == 0)
 //@   call parseProgram#0: bind parsed
-//@   loop 0: continues-only-if every-file-fault-fails-the-load: parsed1 == nil && parsed2 == nil
+//@   loop 1: continues-only-if every-file-fault-fails-the-load: parsed1 == nil && parsed2 == nil
 
 //@ func NewTemplate
 //@   ensures result1 != nil ==> result0 == nil
